@@ -1073,6 +1073,10 @@ impl BigInt {
     /// ```
     pub fn modinv(&self, modulus: &Self) -> Option<Self> {
         let result = self.data.modinv(&modulus.data)?;
+        if result.is_zero() {
+            // Only possible for a modulus of +-1: zero lies in both intervals and needs no reflection.
+            return Some(BigInt::ZERO);
+        }
         // The sign of the result follows the modulus, like `mod_floor`.
         let (sign, mag) = match (self.is_negative(), modulus.is_negative()) {
             (false, false) => (Plus, result),
